@@ -476,6 +476,20 @@ def check_model(res, model, comp, facet, cell):
             T1 = model.T
             B = _dense(T1.get_matrix())
             res.evaluations += 1
+            # faithfulness of the transposed model taken AFTER the matrix was cached: its matrix reproduces its own forward
+            TF1 = _try_columns(T1.forward, m, res, "T.forward(cached)")
+            # (with identity-like geometries the cached matrix transposed IS the transposed model's matrix, so a mismatch
+            #  there only restates that the supplied adjoint function is not the transpose - already reported above)
+            derived = (not adj_ok) and (identity_geoms or cell["fam"] in ("deconv2d",))
+            if TF1 is not None and gm_ok and not derived and not (B.shape == TF1.shape and close(B, TF1, 1e-9)):
+                res.fail("C07|LinearModel|T.get_matrix-after-caching|backing=%s" % bk,
+                         "the matrix of a transposed model taken after get_matrix() had been called does not reproduce that "
+                         "model's forward map column by column", B=B, TF=TF1)
+            # forward must be unaffected by the matrix having been assembled / cached
+            F2 = _try_columns(model.forward, n, res, "forward(after get_matrix)")
+            if F2 is not None and not (F2.shape == F.shape and close(F2, F, 1e-9)):
+                res.fail("C07|LinearModel|forward-after-get_matrix|backing=%s" % bk,
+                         "forward(e_i) changed after get_matrix() was called on the same model", F_before=F, F_after=F2)
             # derived relation: with faithful matrices T.get_matrix() == get_matrix()^T iff adjoint == forward^T,
             # so it is only judged when the inner-product identity itself holds (one defect, one signature)
             if adj_ok and gm_ok and not (B.shape == A.T.shape and close(B, A.T, 1e-9)):
